@@ -98,6 +98,22 @@ def sortVisited (tys : List Ty) : List Nat :=
   let queue := (List.range l).filter fun i => deg.getD i 1 = 0
   sortLoop edges (l + 1) queue deg []
 
+/-- the kinds of the list send `unify` straight to the general path (the preference
+loop): none of the cases of its `switch` applies -/
+def generalKinds (types : List Ty) : Bool :=
+  let mapCt := count isMapTy types
+  let listCt := count isListTy types
+  let setCt := count isSetTy types
+  let objectCt := count isObjectTy types
+  let tupleCt := count isTupleTy types
+  let dynamicCt := count Ty.isDyn types
+  let n := types.length
+  !types.isEmpty &&
+  !(mapCt > 0 && mapCt + dynamicCt == n) && !(mapCt > 0 && mapCt + objectCt + dynamicCt == n) &&
+  !(listCt > 0 && listCt + dynamicCt == n) && !(listCt > 0 && listCt + tupleCt + dynamicCt == n) &&
+  !(setCt > 0 && setCt + dynamicCt == n) && !(objectCt > 0 && objectCt + dynamicCt == n) &&
+  !(tupleCt > 0 && tupleCt + dynamicCt == n) && !(objectCt > 0 && tupleCt > 0)
+
 /-- the order is a permutation of `0 … len-1` -/
 def isPermutation (n : Nat) (order : List Nat) : Bool :=
   order.length == n && (List.range n).all fun i => order.contains i
